@@ -390,9 +390,22 @@ impl<T: CountMinValue> CountMinSketch<T> {
             return Ok(sketch);
         }
 
-        sketch.total_weight = read_value(&mut cursor, "total_weight")?;
+        let total_weight: T = read_value(&mut cursor, "total_weight")?;
+        if total_weight < T::ZERO {
+            return Err(Error::deserial("total_weight must not be negative"));
+        }
+        sketch.total_weight = total_weight;
         for count in &mut sketch.counts {
-            *count = read_value(&mut cursor, "counts")?;
+            let value: T = read_value(&mut cursor, "counts")?;
+            // Every counter is a sum of weights whose absolute values add up to at most the total
+            // weight; a counter outside [-total_weight, total_weight] would let later updates and
+            // merges overflow the counter type although the total weight still fits.
+            if value > total_weight || (value < T::ZERO && value.add(total_weight) < T::ZERO) {
+                return Err(Error::deserial(
+                    "counter magnitude exceeds total_weight",
+                ));
+            }
+            *count = value;
         }
         Ok(sketch)
     }
